@@ -26,7 +26,7 @@ struct Explorer {
     int team = 2, bound = 2; long max_executions = 2000000; double deadline_s = 1e9;
     std::function<std::string()> scenario;                       // builds fresh state, runs the parallel code, returns the observable outcome
     std::function<void(const Execution&)> judge;                 // oracle for one complete execution
-    long executions = 0, points = 0, pruned = 0, max_points = 0; bool capped = false; std::set<std::string> outcomes; std::vector<std::vector<int>> sample_schedules;
+    long executions = 0, points = 0, pruned = 0, max_points = 0, with_switch = 0 /* executions in which at least one scheduling decision departs from 'keep running the current thread' */; bool capped = false; std::set<std::string> outcomes; std::vector<std::vector<int>> sample_schedules;
     std::unordered_map<unsigned long, int> expanded;              // (state key, alternative) -> largest remaining budget it was expanded with
     std::chrono::steady_clock::time_point t0 = std::chrono::steady_clock::now();
 
@@ -35,7 +35,7 @@ struct Explorer {
         Execution x; x.outcome = scenario();
         const Trace& t = trace(); x.points.assign(t.p, t.p + t.n); x.deadlock = deadlocked(); x.diverged = diverged(); x.overflow = t.overflow; x.horizon = t.horizon_hit;
         set_mode(MODE_SERIAL, 1); set_prefix(nullptr, 0);
-        executions++; points += t.n; max_points = std::max<long>(max_points, t.n); outcomes.insert(x.outcome);
+        executions++; points += t.n; for (int i = 0; i < t.n; i++) if (t.p[i].choice != 0) { with_switch++; break; } max_points = std::max<long>(max_points, t.n); outcomes.insert(x.outcome);
         return x;
     }
     static std::string schedule_text(const std::vector<int>& c) { std::string s; for (int v : c) s += char('0' + v); return s; }
